@@ -527,3 +527,293 @@ func ruleVertexFilter(rule string) func(*Ctx) {
 			"repeating any vertex must not change the result, and no other vertex may be dropped: a closed path that passes through its start vertex again mid-path keeps that vertex")
 	}
 }
+
+// ruleUnflaggedReturn: C16.ring — getNext/getPrior walk the ring of still-present vertices: the index they return
+// has just been seen unflagged. On every explored path to a return, the last test of the flag slice is a test of the
+// returned index itself and found it clear.
+func ruleUnflaggedReturn(rule string, fns []string) func(*Ctx) {
+	return func(c *Ctx) {
+		n := 0
+		for _, fn := range fns {
+			f := c.fn(fn)
+			ex := &explorer{c: c, f: f, canon: canonParams(f, "current", "high", "flags"), pureMemo: true, maxPaths: 4000}
+			outs := ex.explore(nil)
+			if ex.overflow {
+				fatalf("%s: path explosion", fn)
+			}
+			bad := ""
+			rets := 0
+			for _, p := range outs {
+				if p.end != "return" || len(p.ret) != 1 {
+					continue
+				}
+				rets++
+				r := p.ret[0].expr
+				if p.ret[0].abs.k == aInt {
+					r = fmt.Sprint(p.ret[0].abs.i)
+				}
+				last := -1
+				for i, cd := range p.conds {
+					if strings.HasPrefix(cd.expr, "flags[") {
+						last = i
+					}
+				}
+				switch {
+				case last < 0:
+					bad = fmt.Sprintf("returns %s on a path that never looked at its flag (%s)", r, p.condString())
+				case p.conds[last].expr != "flags["+r+"]" || p.conds[last].taken:
+					bad = fmt.Sprintf("returns %s although the last flag seen clear on the path is not its own (%s)", r, p.condString())
+				}
+			}
+			n++
+			c.check(bad == "" && rets >= 2, rule, fmt.Sprintf("%s:%s:returned-index-clear", rule, fn), f.Pos(), fn,
+				fmt.Sprintf("on each of %d explored return paths the returned index was the last one tested and its flag was clear", rets), bad,
+				"the distance of a vertex is measured to its nearest STILL PRESENT neighbours; returning a removed index measures against a vertex that is no longer in the result, so vertices within epsilon survive or far ones are dropped")
+		}
+		c.floor(rule, n, len(fns))
+	}
+}
+
+// ruleCyclicPred: in a walk over a closed path the predecessor of element 0 is the LAST element. Every place where
+// `X[i-1]` is read under `i > 0` (or `i != 0`) has a sibling branch for i == 0; that branch may index X only with
+// len(X)-1, with 0, or with i itself.
+func ruleCyclicPred(rule string, fns []string, min int, why string) func(*Ctx) {
+	return func(c *Ctx) {
+		n := 0
+		for _, fn := range fns {
+			f := c.fn(fn)
+			for _, b := range f.Blocks {
+				ifi, ok := b.Instrs[len(b.Instrs)-1].(*ssa.If)
+				if !ok {
+					continue
+				}
+				cmp, ok := ifi.Cond.(*ssa.BinOp)
+				if !ok || !isConstInt(cmp.Y, 0) {
+					continue
+				}
+				var pos, zero *ssa.BasicBlock // successor where i > 0 / where i == 0
+				switch cmp.Op {
+				case token.GTR, token.NEQ:
+					pos, zero = b.Succs[0], b.Succs[1]
+				case token.EQL, token.LEQ:
+					pos, zero = b.Succs[1], b.Succs[0]
+				default:
+					continue
+				}
+				if len(pos.Preds) != 1 || len(zero.Preds) != 1 {
+					continue
+				}
+				i := cmp.X
+				// X[i-1] in the positive branch
+				var X ssa.Value
+				for _, in := range pos.Instrs {
+					if ia, ok := in.(*ssa.IndexAddr); ok {
+						if bo, ok := ia.Index.(*ssa.BinOp); ok && bo.Op == token.SUB && sameIntValue(bo.X, i) && isConstInt(bo.Y, 1) {
+							X = ia.X
+						}
+					}
+				}
+				if X == nil {
+					continue
+				}
+				bad := ""
+				seen := 0
+				for _, in := range zero.Instrs {
+					ia, ok := in.(*ssa.IndexAddr)
+					if !ok || !sameSlice(ia.X, X) {
+						continue
+					}
+					seen++
+					switch {
+					case isConstInt(ia.Index, 0), sameIntValue(ia.Index, i):
+					case isLenMinus1(ia.Index, X):
+					default:
+						bad = fmt.Sprintf("for index 0 the predecessor is read at %s[%s], which is not the last element", valueName(X), valueName(ia.Index))
+					}
+				}
+				if seen == 0 {
+					continue
+				}
+				n++
+				c.check(bad == "", rule, fmt.Sprintf("%s:%s:wrap#%d", rule, fn, n), ifi.Cond.Pos(), fn,
+					fmt.Sprintf("%s[i-1] for i > 0, %s[len-1] for i == 0", valueName(X), valueName(X)), bad, why)
+			}
+		}
+		c.floor(rule, n, min)
+	}
+}
+
+func sameIntValue(a, b ssa.Value) bool {
+	if a == b {
+		return true
+	}
+	la, ok1 := a.(*ssa.UnOp)
+	lb, ok2 := b.(*ssa.UnOp)
+	return ok1 && ok2 && la.Op == token.MUL && lb.Op == token.MUL && la.X == lb.X // two loads of the same local
+}
+
+func sameSlice(a, b ssa.Value) bool {
+	if a == b {
+		return true
+	}
+	if pa, pb := paramOf(a), paramOf(b); pa != nil && pa == pb {
+		return true
+	}
+	return sameLocalLoad(a, b)
+}
+
+// isLenMinus1: v is len(X)-1, directly or through a value defined as such (highI := len(path) - 1).
+func isLenMinus1(v ssa.Value, X ssa.Value) bool {
+	bo, ok := v.(*ssa.BinOp)
+	if !ok || bo.Op != token.SUB || !isConstInt(bo.Y, 1) {
+		return false
+	}
+	call, ok := bo.X.(*ssa.Call)
+	if !ok {
+		return false
+	}
+	bi, ok := call.Call.Value.(*ssa.Builtin)
+	return ok && bi.Name() == "len" && sameSlice(call.Call.Args[0], X)
+}
+
+// ruleAelJoinSplice: C01.ael.join — two edges joined at a shared horizontal span are neighbours in the active edge
+// list, the left one marked JoinRight. A new left bound is spliced in after the position P its scan stopped at; P
+// must not be the left half of a joined pair: on every explored path either `P.joinWith == JoinRight` was tested and
+// found false, or P is the successor of an edge for which it was found true (the scan hopped over the pair).
+func ruleAelJoinSplice(rule string) func(*Ctx) {
+	return func(c *Ctx) {
+		f := c.fn("(clipperBase).insertLeftEdge")
+		jr := enumByName(c.enumValues("JoinWith"), "JoinRight")
+		ex := &explorer{c: c, f: f, canon: canonParams(f, "c", "ae"), pureMemo: true, maxPaths: 4000}
+		outs := ex.explore(nil)
+		if ex.overflow {
+			fatalf("insertLeftEdge: path explosion")
+		}
+		bad := ""
+		n := 0
+		for _, p := range outs {
+			if p.end != "return" {
+				continue
+			}
+			for _, s := range p.stores {
+				if !strings.HasSuffix(s.addr, ".nextInAEL") || s.val.expr != "ae" {
+					continue
+				}
+				P := strings.TrimSuffix(s.addr, ".nextInAEL")
+				n++
+				ok := false
+				for _, cd := range p.conds {
+					if cd.expr == fmt.Sprintf("(%s.joinWith == %d)", P, jr) && !cd.taken {
+						ok = true
+					}
+					if strings.HasSuffix(P, ".nextInAEL") && cd.expr == fmt.Sprintf("(%s.joinWith == %d)", strings.TrimSuffix(P, ".nextInAEL"), jr) && cd.taken {
+						ok = true
+					}
+				}
+				if !ok && bad == "" {
+					bad = fmt.Sprintf("the new edge is linked in after %s without that edge's joinWith having been compared with JoinRight (path: %s)", P, p.condString())
+				}
+			}
+		}
+		c.check(bad == "" && n >= 4, rule, rule+":(clipperBase).insertLeftEdge:splice-point", f.Pos(), "(clipperBase).insertLeftEdge",
+			fmt.Sprintf("on %d explored splices the position was tested against JoinRight (or is the partner hopped to)", n), bad,
+			"an edge inserted between the two halves of a joined pair becomes the partner that split() separates: its output record is overwritten and a polygon of the union is lost or doubled — only inputs with touching collinear horizontal-adjacent edges and a local minimum between them show it")
+	}
+}
+
+// ruleSplitDedupe: C02.split.dedupe — where doSplitOp decides whether the intersection point needs a vertex of its
+// own, the points it is compared with must be those of the two nodes the new vertex would be linked between
+// (otherwise a vertex equal to its neighbour enters the ring: a zero-length edge in the result).
+func ruleSplitDedupe(rule string) func(*Ctx) {
+	return func(c *Ctx) {
+		f := c.fn("(clipperBase).doSplitOp")
+		n := 0
+		for _, b := range f.Blocks {
+			for _, in := range b.Instrs {
+				al, ok := in.(*ssa.Alloc)
+				if !ok || !al.Heap {
+					continue
+				}
+				st, ok := derefStruct(al.Type())
+				if !ok {
+					continue
+				}
+				var P ssa.Value
+				links := map[string]ssa.Value{}
+				for _, r := range *al.Referrers() {
+					fa, ok := r.(*ssa.FieldAddr)
+					if !ok {
+						continue
+					}
+					name := st.Field(fa.Field).Name()
+					for _, rr := range *fa.Referrers() {
+						if s, ok := rr.(*ssa.Store); ok && s.Addr == fa {
+							switch name {
+							case "pt":
+								P = s.Val
+							case "prev", "next":
+								links[name] = s.Val
+							}
+						}
+					}
+				}
+				if P == nil || len(links) != 2 {
+					continue
+				}
+				// conditions on whose false outcome the node is created
+				var compared []ssa.Value
+				for d := al.Block(); d != nil; d = d.Idom() {
+					if len(d.Preds) != 1 {
+						continue
+					}
+					p := d.Preds[0]
+					ifi, ok := p.Instrs[len(p.Instrs)-1].(*ssa.If)
+					if !ok || p.Succs[1] != d {
+						continue
+					}
+					call, ok := ifi.Cond.(*ssa.Call)
+					if !ok || !isCallNamed(c, call, "pointsEqual") || len(call.Call.Args) != 2 {
+						continue
+					}
+					a0, a1 := call.Call.Args[0], call.Call.Args[1]
+					if !sameIntValue(a0, P) && a0 != P {
+						a0, a1 = a1, a0
+					}
+					if a0 != P && !sameIntValue(a0, P) {
+						continue
+					}
+					if ld, ok := a1.(*ssa.UnOp); ok && ld.Op == token.MUL {
+						if fa, ok := ld.X.(*ssa.FieldAddr); ok {
+							compared = append(compared, fa.X)
+						}
+					}
+				}
+				if len(compared) == 0 {
+					continue // this node is created unconditionally
+				}
+				n++
+				bad := ""
+				covered := map[string]bool{}
+				for _, x := range compared {
+					hit := false
+					for name, l := range links {
+						if l == x || sameIntValue(l, x) {
+							covered[name] = true
+							hit = true
+						}
+					}
+					if !hit {
+						bad = fmt.Sprintf("the new vertex is compared with %s.pt, but it is linked between %s and %s", valueName(x), valueName(links["prev"]), valueName(links["next"]))
+					}
+				}
+				if bad == "" && len(covered) != 2 {
+					bad = "the new vertex is compared with only one of the two nodes it is linked between"
+				}
+				c.check(bad == "", rule, fmt.Sprintf("%s:doSplitOp:new-vertex#%d", rule, n), al.Pos(), "(clipperBase).doSplitOp",
+					"a vertex for the intersection point is created only when it differs from both nodes it is linked between", bad,
+					"a vertex equal to its ring neighbour is a zero-length edge in the solution; it sits on the seam where buildPath starts, which de-duplicates only against the previously emitted point")
+			}
+		}
+		c.floor(rule, n, 1)
+	}
+}
